@@ -7,7 +7,7 @@ rows = []
 only = sys.argv[1:]
 for d in sorted(glob.glob(os.path.join(V, "seeded", "C*-*"))):
     mid = os.path.basename(d)
-    if only and not any(mid.startswith(o) for o in only):
+    if only and not any(mid.startswith(o) or mid.endswith(o) for o in only):
         continue
     meta = json.load(open(os.path.join(d, "meta.json")))
     prop = meta["breaks_property"]
